@@ -7,7 +7,8 @@ A family is {'defs': [def...], 'layers': n, 'call': {...}}.  A def is
 and a param is
   {'name', 'type', 'nullable', 'default': absent | JSON value,
    'kwonly': bool, 'hidden': bool, 'lazy': bool}.
-Types: obj A B C D int Integer String bool (lattice object>A>B>C, A>D).
+Types: obj A B C D int Integer String bool (lattice object>A>B>C, A>D) and
+the union types BorD = (B, D), Number = (int, float) without bool.
 Call: {'receiver': value|absent, 'args': [value | {'skip': 1}],
        'kwargs': [[name, value]...], 'via': 'text'|'api'}.
 Values: {'o': 'a'|'b'|'c'|'d'} lattice instances, or JSON scalars.
@@ -42,14 +43,18 @@ class D(A):
 LATTICE = {'A': A, 'B': B, 'C': C, 'D': D}
 INSTANCES = {'a': A(), 'b': B(), 'c': C(), 'd': D()}
 # supertypes (reflexive) of each type token, most specific first
+# (BorD and Number are union types: PythonType over a tuple of classes)
 SUPERS = {
-    'C': ['C', 'B', 'A', 'obj'], 'B': ['B', 'A', 'obj'],
-    'D': ['D', 'A', 'obj'], 'A': ['A', 'obj'], 'obj': ['obj'],
-    'int': ['int', 'obj'], 'Integer': ['Integer', 'obj'],
+    'C': ['C', 'B', 'BorD', 'A', 'obj'], 'B': ['B', 'BorD', 'A', 'obj'],
+    'D': ['D', 'BorD', 'A', 'obj'], 'BorD': ['BorD', 'A', 'obj'],
+    'A': ['A', 'obj'], 'obj': ['obj'],
+    'int': ['int', 'Number', 'obj'], 'Integer': ['Integer', 'Number', 'obj'],
+    'Number': ['Number', 'obj'],
     'String': ['String', 'obj'], 'bool': ['bool', 'obj'],
 }
 PYTYPE = {'obj': object, 'A': A, 'B': B, 'C': C, 'D': D, 'int': int,
-          'Integer': int, 'String': str, 'bool': bool}
+          'Integer': int, 'String': str, 'bool': bool,
+          'Number': (int, float), 'BorD': (B, D)}
 
 
 def make_type(tok, nullable, lazy=False):
@@ -59,6 +64,8 @@ def make_type(tok, nullable, lazy=False):
         return yaqltypes.Integer(nullable=nullable)
     if tok == 'String':
         return yaqltypes.String(nullable=nullable)
+    if tok == 'Number':
+        return yaqltypes.Number(nullable=nullable)
     return yaqltypes.PythonType(PYTYPE[tok], nullable=nullable)
 
 
